@@ -358,6 +358,8 @@ EXTRA_TEXT = {
     "C06": " Lists of proofs (Verify.selectProof / verifyList): list_accepted_one_proof_bound_and_valid - a credential with any list of proofs is accepted only if one and the same proof of the requested type "
            "is bound to it and verifies over the claim it carries; list_only_first_of_type. Tie: op verify.list - lists mixing a bound-but-unsigned proof, a genuine proof of another credential and a proof of "
            "another type, in several orders, against the real VerifyProof.",
+    "C20": " interleaving_results_total (every load ends with a document or an error, never with neither, under every schedule) and interleaving_failing_url (a URL the origin does not serve is an error "
+           "for every thread); the harness's bursts include failing URLs of six kinds.",
     "C08": " smt_resolver_failure_rejected: a resolver error (whatever document accompanies it) or an answer without state information is a rejection, also for the genesis state; the harness's resolver errors "
            "come with an empty document, a 'published' one or one without the flag.",
     "C07": " bjj_resolver_failure_rejected (as for C08), bjj_congr (no hidden input: the verdict is a function of the bundle's members). The same verification also runs through verifiable.HTTPDIDResolver against a scripted gateway (transient 5xx): same verdict, same questions asked. Known finding F8: status nonces are read back through float64 inside VerifyProof; the model receives the nonce as the verifier reads it (oracle column).",
